@@ -293,6 +293,82 @@ theorem sendWriteOld_loses_accepted_block :
   ⟨{ segs := [newSeg 1 64], nextID := 2, maxSegSize := 64, maxSize := 1000, closedSegs := [] },
    [([7], false)], by decide, by decide, by decide, by decide⟩
 
+def q0 : Q := { segs := [newSeg 1 64], nextID := 2, maxSegSize := 64, maxSize := 1000, closedSegs := [] }
+
+/-! ### crash and restart -/
+
+theorem open_spec (q : Q) (hs : q.segs = []) (hw : ∀ s ∈ q.closedSegs, s.WF ∧ s.buf = []) :
+    q.open_.pending = q.closedSegs.flatMap Seg.pend := by
+  have hpend : ∀ (l : List Seg), (l.map fun (s : Seg) => { s with maxSize := q.maxSegSize }).flatMap Seg.pend
+      = l.flatMap Seg.pend := by
+    intro l
+    induction l with
+    | nil => rfl
+    | cons a l ih => simp only [List.map_cons, List.flatMap_cons, ih]; rfl
+  cases hc : q.closedSegs with
+  | nil =>
+    -- nothing on disk: one fresh segment
+    simp [Q.open_, hc, Q.addSegment, Q.trimHead, newSeg, Q.pending]
+  | cons a l =>
+    have ha := hw a (by simp [hc])
+    by_cases hex : a.pos ≥ a.blocks.length
+    · -- an exhausted head is trimmed: it holds nothing pending (no buffer on disk)
+      have ha' : a.pend = [] := by
+        simp only [Seg.pend, ha.2, List.append_nil, List.drop_eq_nil_iff]
+        exact hex
+      cases l with
+      | nil =>
+        simp [Q.open_, hc, Q.trimHead, pending_eq, Seg.pend, hex]
+      | cons b l' =>
+        have h2 := hpend (b :: l')
+        simp only [List.map_cons, List.flatMap_cons] at h2
+        simp only [Q.open_, hc, List.map_cons, List.isEmpty_cons, Bool.false_eq_true, if_false, hex,
+          if_true, Q.trimHead, pending_eq, List.flatMap_cons, ha', List.nil_append]
+        exact h2
+    · have h2 := hpend (a :: l)
+      simp only [List.map_cons] at h2
+      simp only [Q.open_, hc, List.map_cons, List.isEmpty_cons, Bool.false_eq_true, if_false, hex, pending_eq]
+      exact h2
+
+/-- **What a crash keeps.** After a crash and restart the pending blocks are exactly the
+blocks that had been flushed and not yet advanced past, in order: nothing on disk is lost,
+reordered or duplicated. What sat in a write buffer (accepted under the buffered path, not
+yet flushed) is gone. -/
+theorem crash_keeps_flushed (q : Q) (hw : q.WF) (hopen : q.segs ≠ []) :
+    q.crash.pending = q.segs.flatMap fun s => s.blocks.drop s.pos := by
+  unfold Q.crash
+  have hne : q.segs.isEmpty = false := by
+    cases h : q.segs with
+    | nil => exact absurd h hopen
+    | cons a l => rfl
+  simp only [hne, Bool.false_eq_true, if_false]
+  rw [open_spec _ rfl]
+  · simp only [List.flatMap_map]
+    apply List.flatMap_congr
+    intro s _
+    simp [Seg.pend]
+  · intro s hs
+    simp only [List.mem_map] at hs
+    obtain ⟨s0, hs0, rfl⟩ := hs
+    exact ⟨hw.1 s0 hs0, rfl⟩
+
+/-- with nothing buffered a crash loses nothing at all -/
+theorem crash_loses_nothing_unbuffered (q : Q) (hw : q.WF) (hopen : q.segs ≠ [])
+    (hb : ∀ s ∈ q.segs, s.buf = []) : q.crash.pending = q.pending := by
+  rw [crash_keeps_flushed q hw hopen, pending_eq]
+  apply List.flatMap_congr
+  intro s hs
+  simp [Seg.pend, hb s hs]
+
+/-- **An accepted block can be lost by a crash** (the property is false of the model and of
+the code alike — open known finding C04-buffered-append-lost-at-crash): `Append` returns
+success for a block it only put into the tail's write buffer (the path taken above ten
+concurrent writers); a crash before the next flush loses it. -/
+theorem crash_loses_buffered_accepted_block :
+    ∃ (q : Q) (b : Block), (q.append b true).2 = .ok ∧ b ∈ (q.append b true).1.pending ∧
+      b ∉ (q.append b true).1.crash.pending :=
+  ⟨q0, [7], by decide, by decide, by decide⟩
+
 /-! ### splitting an oversized batch -/
 
 /-- the chunks produced by the bisection are contiguous, start at `i`, end at the last
@@ -394,7 +470,6 @@ theorem split_concat {α} (points : List α) (sizes : List Nat) (hlen : sizes.le
 
 /-! ### Non-vacuity -/
 
-def q0 : Q := { segs := [newSeg 1 64], nextID := 2, maxSegSize := 64, maxSize := 1000, closedSegs := [] }
 example : ((q0.append [1,2,3] false).1.append [4] true).1.pending = [[1,2,3],[4]] := by decide
 example : ((q0.append [1,2,3] false).1.append [4] true).1.empty = false := by decide
 example : q0.empty = true := by decide
